@@ -98,7 +98,7 @@ theorem mutated_residue_has_target_atoms (ff : FF) (rn : String) (mu mods : Opti
     (hmark : ∀ a ∈ m.nodes, a.key ∈ found → requested a = true) :
     ∃ name b0, targetName rn mu = .ok name ∧ ff.blocks.lookup name = some b0 ∧
       ((residueAtoms (residueOf ref found M common) (repairResidue m (residueOf ref found M common))).map (·.name)).Perm
-        (b0.nodes.map (·.name) ++ addedNames ff (mods.getD [])) ∧
+        (b0.nodes.map (·.name) ++ addedNames ff (dedupReq (mods.getD []))) ∧
       (∀ k ∈ found, k ∉ ran M → k ∉ (repairResidue m (residueOf ref found M common)).mol.keys) ∧
       (∀ t rest, mu = some (t :: rest) →
         ∀ a ∈ residueAtoms (residueOf ref found M common) (repairResidue m (residueOf ref found M common)),
@@ -127,26 +127,66 @@ theorem mutated_residue_has_target_atoms_mcis (ff : FF) (rn : String) (mu mods :
     (hmark : ∀ a ∈ m.nodes, a.key ∈ found → requested a = true) :
     ∃ name b0, targetName rn mu = .ok name ∧ ff.blocks.lookup name = some b0 ∧
       ((residueAtoms (residueOf ref found M common) (repairResidue m (residueOf ref found M common))).map (·.name)).Perm
-        (b0.nodes.map (·.name) ++ addedNames ff (mods.getD [])) ∧
+        (b0.nodes.map (·.name) ++ addedNames ff (dedupReq (mods.getD []))) ∧
       (∀ k ∈ found, k ∉ ran M → k ∉ (repairResidue m (residueOf ref found M common)).mol.keys) :=
   have h : WF m (residueOf ref found M common) := wf_of_mcis m (residueOf ref found M common) hBk hm hf hM
   let ⟨name, b0, h1, h2, h3, h4, _⟩ :=
     mutated_residue_has_target_atoms ff rn mu mods ref href m found M common h hc hne hB hmark
   ⟨name, b0, h1, h2, h3, h4⟩
 
-/-! ## the same modification requested twice (finding F-C19-4) -/
+/-! ## the same modification requested twice (finding F-C19-5, fixed by d4639ea) -/
 
-/-- **witness**: unlike equal mutation targets (`mutate_twice_same_target_ok`), equal modification
-requests on one residue are NOT one request: `-nter N-ter -modify A-nter:N-ter`, or `-nter NH2-ter
--nt` (`nt_means_neutral_termini`), leave `modification = [m, m]` on the terminal residue and
-`_get_reference_residue` patches `m` in twice — the reference, hence the repaired residue, has the
-added atom twice under one name.  `NamesDistinct` (hypothesis of
-`mutated_residue_has_target_atoms`) fails for such a reference. -/
-theorem duplicate_modification_doubles_atoms :
+/-- **A modification requested twice is applied once.**  For every request list `ms` the reference
+is, atom for atom and bond for bond (keys, names, elements, `PTM_atom`), the reference for `ms`
+with the later duplicates removed (`dedupReq` = `dict.fromkeys`: first occurrences, in order, each
+once, nothing else dropped) — `-nter NH2-ter -nt` and `-nter N-ter -modify A-nter:N-ter` build
+the terminus a single request builds.  Only the `modification` attribute written on the atoms keeps
+the full list.  A list without duplicates is applied as it is. -/
+theorem duplicate_request_applied_once (ff : FF) (rn : String) (mu : Option (List String)) (ms : List String) :
+    (getReference ff rn mu (some ms)).map skeleton = (getReference ff rn mu (some (dedupReq ms))).map skeleton ∧
+    (dedupReq ms).Nodup ∧ (∀ x, x ∈ dedupReq ms ↔ x ∈ ms) ∧ (ms.Nodup → dedupReq ms = ms) := by
+  refine ⟨?_, nodup_dedupAux [] ms, fun x => by simp [dedupReq, mem_dedupAux], fun h => dedupAux_of_nodup [] ms h (by simp)⟩
+  unfold getReference getReferenceGen
+  simp only [Option.getD_some]
+  have hid : dedupReq (dedupReq ms) = dedupReq ms := dedupAux_idem [] ms
+  rw [hid]
+  cases targetName rn mu with
+  | error e => rfl
+  | ok name =>
+    simp only
+    cases ff.blocks.lookup name with
+    | none => rfl
+    | some b0 =>
+      simp only
+      cases applyMods ff (dedupReq ms) b0 with
+      | error e => rfl
+      | ok b1 =>
+        simp only
+        cases mu with
+        | none => simp [Except.map, skeleton_setAll]
+        | some l =>
+          cases l with
+          | nil => simp [Except.map, skeleton_setAll]
+          | cons t rest => simp [Except.map, skeleton_setAll]
+
+example : dedupReq ["N-ter", "none", "N-ter", "C-ter", "none"] = ["N-ter", "none", "C-ter"] := by decide
+
+/-- the reference for the doubled request on the toy force field: HN2 once, names distinct again -/
+example :
     (match getReference ffEx "GLY" none (some ["N-ter", "N-ter"]) with
      | .ok b => b.nodes.map (·.name)
+     | .error _ => []) = ["N", "CA", "C", "HN2"] ∧
+    NamesDistinct (match getReference ffEx "GLY" none (some ["N-ter", "N-ter"]) with | .ok b => b | .error _ => default) := by
+  decide
+
+/-- **witness of the behaviour before the fix** (`getReferenceNoDedup`): equal modification requests
+on one residue were patched in twice — the reference, hence the repaired residue, had the added atom
+twice under one name, and `NamesDistinct` (hypothesis of `mutated_residue_has_target_atoms`) failed. -/
+theorem old_duplicate_modification_doubled_atoms :
+    (match getReferenceNoDedup ffEx "GLY" none (some ["N-ter", "N-ter"]) with
+     | .ok b => b.nodes.map (·.name)
      | .error _ => []) = ["N", "CA", "C", "HN2", "HN2"] ∧
-    ¬ NamesDistinct (match getReference ffEx "GLY" none (some ["N-ter", "N-ter"]) with | .ok b => b | .error _ => default) := by
+    ¬ NamesDistinct (match getReferenceNoDedup ffEx "GLY" none (some ["N-ter", "N-ter"]) with | .ok b => b | .error _ => default) := by
   decide
 
 /-! ## other residues -/
